@@ -131,6 +131,13 @@ fn main() {
             exec::set_worker(0);
             std::process::exit(c14::arm_main(args.get(2).map(|s| s.as_str()).unwrap_or("")));
         }
+        "hash" => {
+            let prop = args.get(2).cloned().unwrap_or_default();
+            let seed = args.get(3).and_then(|s| s.parse().ok()).unwrap_or(1);
+            let wk = args.get(4).and_then(|s| s.parse().ok()).unwrap_or(workers);
+            exec::start_watchdog(wk, 120, on_timeout);
+            std::process::exit(props::print_hash(&prop, seed, wk));
+        }
         "selfcheck" => {
             let code = props::selfcheck(args.get(2).map(|s| s.as_str()).unwrap_or("determinism"), workers);
             std::process::exit(code);
